@@ -27,8 +27,18 @@ type refEntry struct {
 	Sum    [16]byte
 }
 
+// Devices and Specials: rsync 2.6.x has a single preserve_devices switch covering both;
+// rsync 3.x (also when speaking protocol 27) sends the rdev field for device nodes under
+// --devices and for fifos/sockets under --specials. With both equal the two coincide.
 type refOpts struct {
-	Uid, Gid, Devices, Links, Checksum bool
+	Uid, Gid, Devices, Specials, Links, Checksum bool
+}
+
+func (o refOpts) hasRdev(mode int32) bool {
+	t := mode & 0o170000
+	isDev := t == 0o020000 || t == 0o060000
+	isSpecial := t == 0o140000 || t == 0o010000
+	return (o.Devices && isDev) || (o.Specials && isSpecial)
 }
 
 // refChoice are the liberties a conforming sender has for one entry.
@@ -82,7 +92,7 @@ func refEncodeEntry(b []byte, e, prev *refEntry, c refChoice, o refOpts) []byte 
 	if o.Gid && c.SameGid {
 		flags |= refSameGid
 	}
-	if o.Devices && refIsDevice(e.Mode) && c.SameRdev {
+	if o.hasRdev(e.Mode) && c.SameRdev {
 		flags |= refSameRdev
 	}
 	l1 := 0
@@ -125,7 +135,7 @@ func refEncodeEntry(b []byte, e, prev *refEntry, c refChoice, o refOpts) []byte 
 	if o.Gid && flags&refSameGid == 0 {
 		b = refPutI32(b, e.Gid)
 	}
-	if o.Devices && refIsDevice(e.Mode) && flags&refSameRdev == 0 {
+	if o.hasRdev(e.Mode) && flags&refSameRdev == 0 {
 		b = refPutI32(b, e.Rdev)
 	}
 	if o.Links && e.Mode&0o170000 == 0o120000 {
@@ -263,7 +273,7 @@ func refDecodeList(b []byte, o refOpts, maxEntries int) (ents []refEntry, ioErro
 				e.Gid = r.i32()
 			}
 		}
-		if o.Devices && refIsDevice(e.Mode) {
+		if o.hasRdev(e.Mode) {
 			if flags&refSameRdev != 0 {
 				e.Rdev = prev.Rdev
 			} else {
